@@ -140,10 +140,102 @@ def step (line : String) : String :=
     | _, _ => "bad-op"
   | _ => "bad-op"
 
+/-! ### argument classes (C13) -/
+
+def apiOfName : String → Option Api
+  | "encode" => some .encode | "encode_cleanup" => some .encodeCleanup | "decode" => some .decode
+  | "decode_cleanup" => some .decodeCleanup | "reconstruct" => some .reconstruct
+  | "fragments_needed" => some .fragmentsNeeded | "get_fragment_metadata" => some .getMetadata
+  | "is_invalid_fragment" => some .isInvalidFragment | "verify_stripe_metadata" => some .verifyStripe
+  | "sizes" => some .sizes | "destroy" => some .destroy | "create_nullargs" => some .createNullArgs
+  | "backend_available" => some .backendAvailable | _ => none
+
+def stepArgs (api be k m : String) (rest : List String) : String :=
+  match apiOfName api, be.toNat?, k.toNat?, m.toNat?, rest.mapM String.toInt? with
+  | some api, some be, some k, some m, some a =>
+    let hd := if be == 3 then 3 else m
+    match mkInst be k m hd 1 with
+    | none => "bad-op"
+    | some (inst, bk) =>
+      let e : ArgEnv := { k := k, m := m, aligned100 := alignedSizeQ bk inst 100,
+                          frag100 := fragmentSizeQ inst 100, minEnc := minEncodeSizeQ bk inst,
+                          avail := availDefault }
+      -- a negative backend id reaches the C code as a huge unsigned value
+      let a' := a.map fun (x : Int) => if x < 0 then 4294967295 else x.toNat
+      match argCheck e api a' with
+      | .rc c => toString c
+      | .triple x y z => s!"{x} {y} {z}"
+  | _, _, _, _, _ => "bad-op"
+
+/-! ### descriptor histories (C14) -/
+
+structure HistState where
+  reg : Registry
+  slots : List Int                       -- descriptor stored in each slot (-1: none yet)
+  shapes : List (Int × Nat × Nat × Nat × Nat)   -- desc ↦ (be, k, m, hd)
+
+def histData : Bytes := (List.range 29).map fun i => UInt8.ofNat (i * 11 + 3)
+
+def roundTrip (be k m hd : Nat) : Int :=
+  match mkInst be k m hd 2 with
+  | none => -1
+  | some (inst, bk) =>
+    match encode (env false) bk inst histData with
+    | .error (.rc e) => e
+    | .error .crash => -99
+    | .ok frags =>
+      match decode (env false) bk inst (frags.drop 1) (frags.headD []).length false with
+      | .ok d => if d == histData then 0 else 1
+      | .error (.rc e) => e
+      | .error .crash => -99
+
+def histOp (st : HistState) (op : String) : HistState × Int :=
+  let chars := op.toList
+  let kind := String.ofList (chars.take 1)
+  let slot := (String.ofList ((chars.drop 1).take 1)).toNat?.getD 0
+  let desc := st.slots.getD slot (-1)
+  if kind == "c" || kind == "f" then
+    match (String.ofList (chars.drop 3)).splitOn ":" |>.mapM String.toInt? with
+    | some [be, k, m, hd] =>
+      let (r', res) := st.reg.create availDefault be k m 0 hd 2
+      if res > 0 then
+        ({ reg := r', slots := st.slots.set slot res,
+           shapes := (res, be.toNat, k.toNat, m.toNat, hd.toNat) :: st.shapes.filter (·.1 != res) }, res)
+      else ({ st with reg := r' }, res)
+    | _ => (st, -12345)
+  else if kind == "d" then
+    let (r', res) := st.reg.destroy desc
+    ({ st with reg := r' }, res)
+  else if kind == "u" then
+    match st.reg.lookup desc, st.shapes.find? (·.1 == desc) with
+    | some _, some (_, be, k, m, hd) => (st, roundTrip be k m hd)
+    | _, _ => (st, -EBACKENDNOTAVAIL)
+  else if kind == "q" then
+    match st.reg.lookup desc with
+    | some inst => (st, (fragmentSizeQ inst 1000 : Nat))
+    | none => (st, -EBACKENDNOTAVAIL)
+  else (st, -12345)
+
+def stepHist (preset : String) (ops : String) : String :=
+  match preset.toInt? with
+  | none => "bad-op"
+  | some p =>
+    let st0 : HistState := { reg := { Registry.init with next := p }, slots := [-1, -1, -1, -1], shapes := [] }
+    let (_, outs) := (ops.splitOn ";").foldl (fun (acc : HistState × List Int) op =>
+      let (st', r) := histOp acc.1 op
+      (st', acc.2 ++ [r])) (st0, [])
+    ",".intercalate (outs.map toString)
+
+def stepAll (line : String) : String :=
+  match line.trimAscii.toString.splitOn " " with
+  | "args" :: api :: be :: k :: m :: rest => stepArgs api be k m rest
+  | ["hist", preset, ops] => stepHist preset ops
+  | _ => step line
+
 partial def loop (h : IO.FS.Stream) (out : IO.FS.Stream) : IO Unit := do
   let line ← h.getLine
   if line.isEmpty then return ()
-  out.putStrLn (step line)
+  out.putStrLn (stepAll line)
   loop h out
 
 def main : IO Unit := do
